@@ -187,10 +187,19 @@ def random_config(rng, nmin=4, nmax=7):
         if rng.random() < 0.2:
             form = rng.choice(["const", "arg", "node"] if k > 1 else ["const", "arg"])
             act[k - 1] = ["node", rng.randrange(1, k)] if form == "node" else [form, rng.random() < 0.5]
+    # debug nodes: a node may be a debug node when everything that depends on it is one (checked when the DAG is built)
+    debug = [False] * n
+    run_debug = False
+    if rng.random() < 0.3:
+        run_debug = rng.random() < 0.7
+        for k in range(n, 0, -1):
+            users = [m for m in range(k + 1, n + 1) if k in deps[m - 1] or (act[m - 1] is not None and act[m - 1][0] == "node" and act[m - 1][1] == k)]
+            if all(debug[m - 1] for m in users) and rng.random() < (0.5 if not users else 0.3):
+                debug[k - 1] = True
     setup = [False] * n
     if rng.random() < 0.3:
         for k in range(1, n + 1):
-            if act[k - 1] is None and all(setup[d - 1] for d in deps[k - 1]) and rng.random() < 0.6:
+            if act[k - 1] is None and not debug[k - 1] and all(setup[d - 1] for d in deps[k - 1]) and rng.random() < 0.6:
                 setup[k - 1] = True
     # a non-setup node may depend on setup nodes, a setup node on setup nodes only (enforced above)
     ops = ["call"]
@@ -204,7 +213,7 @@ def random_config(rng, nmin=4, nmax=7):
         # share a decorated function between nodes with equal attributes (ids f, f<<1>>, ...)
         for a in range(1, n + 1):
             for b in range(a + 1, n + 1):
-                same = (prio[a - 1], seq[a - 1], res[a - 1], setup[a - 1]) == (prio[b - 1], seq[b - 1], res[b - 1], setup[b - 1])
+                same = (prio[a - 1], seq[a - 1], res[a - 1], setup[a - 1], debug[a - 1]) == (prio[b - 1], seq[b - 1], res[b - 1], setup[b - 1], debug[b - 1])
                 if same and rng.random() < 0.5 and fn[b - 1] == b:
                     fn[b - 1] = fn[a - 1]
     if rng.random() < 0.3:
@@ -220,10 +229,11 @@ def random_config(rng, nmin=4, nmax=7):
         ops = ops[:-1] + [["exec", sel]] if rng.random() < 0.7 else ops + [["exec", sel]]
     cfg = {"n": n, "deps": deps, "mc": mc, "prio": prio, "seq": seq, "res": res, "bad": bad,
            "act": act, "truthy": truthy, "setup": setup, "ops": ops, "kw": kw, "fn": fn,
-           "flavour": rng.choice(["sync", "async"])}
+           "debug": debug, "run_debug": run_debug, "flavour": rng.choice(["sync", "async"])}
     if rng.random() < 0.25 and fn == list(range(1, n + 1)):
         cfg["reconf"] = {"prio": [rng.choice([-3, 0, 1, 4, 9]) for _ in range(n)], "seq": [rng.random() < 0.2 for _ in range(n)],
-                         "named": [rng.random() < 0.6 for _ in range(n)], "via": rng.choice(["dict", "json", "yaml"])}
+                         "named": [rng.random() < 0.6 for _ in range(n)], "via": rng.choice(["dict", "json", "yaml"]),
+                         "mc": rng.choice([None, None, 1, 2, 3, 4])}
     cfg["cid"] = cfg_key(cfg)
     return cfg
 
@@ -235,7 +245,7 @@ def project(cfg, run):
     deps = full_deps(cfg)
     setup = cfg.get("setup") or [False] * n
     off = expected_off(cfg)
-    base = {"n": n, "mc": cfg["mc"], "deps": deps, "cp": documented_cp(cfg), "seq": effective(cfg)[1],
+    base = {"n": n, "mc": (cfg.get("reconf") or {}).get("mc") or cfg["mc"], "deps": deps, "cp": documented_cp(cfg), "seq": effective(cfg)[1],
             "res": cfg["res"], "argsrc": argsrc(cfg), "flavour": cfg.get("flavour", "sync")}
     done_setup = set()
     traces = []
@@ -255,12 +265,13 @@ def project(cfg, run):
                     if later["e"] == "op":
                         break
             else:
-                sel = [k for k in range(1, n + 1) if k not in done_setup]
+                dbg = cfg.get("debug") or [False] * n
+                sel = [k for k in range(1, n + 1) if k not in done_setup and (cfg.get("run_debug") or not dbg[k - 1])]
             none = [k for k in range(1, n + 1) if k not in sel and k not in done_setup] if ev["k"] == "exec" else []
             cur = dict(base, op=ev["k"], sel=sel, off=[k for k in off if k in sel], none=none, ev=[])
             traces.append(cur)
-        if cur is None:
-            continue
+        if cur is None or ev["e"] == "op_skipped":
+            continue        # a skipped operation (caller error when the executor was created) belongs to no execution
         cur["ev"].append(ev)
         if ev["e"] == "return":
             done_setup |= {k for k in cur["sel"] if setup[k - 1]}
